@@ -31,7 +31,7 @@ def main():
     vlib.build_harness()
     V = vlib.Verdicts(PID)
     machinery = []
-    entries = [e for e in pe.catalogue() if e["class"] == "strategy" and e["name"] != "strategy/compound.MacdRsiStrategy"]
+    entries = [e for e in pe.catalogue() if e["class"] == "strategy" and not e["name"].startswith("strategy/compound.MacdRsiStrategy")]
     # ---------- (b) decision tables
     tla, meta = rulesgen.compile_rules()
     mc = "---- MODULE MCRules ----\nEXTENDS Rules\nASSUME PrintT(\"PROP \" \\o ToJson([exclusive |-> Exclusive, notVacuous |-> NotVacuous]))\nASSUME EmitTables\n====\n"
@@ -50,7 +50,7 @@ def main():
     reqs = []
     seeds = [1, 2, 3] if tier == "quick" else list(range(1, 11))
     for e in entries:
-        if e["name"] not in meta:
+        if e["name"].split("@")[0] not in meta:
             continue
         cfgs = pe.configs_for(e, tier, rng, max_alt=2 if tier == "quick" else 4)
         for cfg in cfgs:
@@ -73,7 +73,7 @@ def main():
     covered = {}
     samples = []
     for o in outs:
-        s = o["strategy"]
+        s = o["strategy"].split("@")[0]
         if o.get("error"):
             machinery.append("rules-trace %s %s: %s" % (s, o.get("cfg"), o["error"]))
             continue
